@@ -62,6 +62,23 @@ cov["lifecycle_programmes"] = lc["programmes"]
 labels |= lc["labels"]
 for m, path in lc["mismatches"]:
     v.report(ks.signature(m), ks.replay_of(m, path), what="lifecycle programme:\n" + ks.explain(m, path, context=10))
+# ---- expiry under load (harness/cmd/busyttl): deadlines pass while reader goroutines keep the keys' lock stripes busy; one
+# full second after the deadline second has ended every key must be invisible to the commands that have no lazy check too
+bt = ks.build_tool("busyttl")
+bp = subprocess.run([bt, "-seed", str(seed), "-rounds", "2" if tier == "quick" else "12"], stdout=subprocess.PIPE, stderr=subprocess.PIPE, text=True, timeout=600)
+if bp.returncode != 0:
+    if "fatal error" in bp.stderr or "panic" in bp.stderr:
+        v.report({"branch": "busy.process", "kind": "process-death", "detail": bp.stderr.strip().splitlines()[0][:80]}, {"stderr": bp.stderr[-1500:]},
+                 what="the process died while keys expired under read load: " + bp.stderr.strip().splitlines()[0][:200])
+    else:
+        common.die_infra("busyttl failed: " + bp.stderr[-1500:])
+for line in bp.stdout.splitlines():
+    if line.startswith("SUMMARY "):
+        cov["expiry_under_load"] = json.loads(line[8:])
+    elif line.startswith("{"):
+        pr = json.loads(line)
+        v.report({"branch": "busy." + pr["type"], "kind": pr["kind"], "detail": ""}, pr,
+                 what="expiry under read load: %s key %s still visible: %s" % (pr["type"], pr["key"], pr["detail"]))
 cov["labels_exercised"] = len(labels)
 v.finish(tier, "model_checking", cov, ["real clock; one-second granularity: a key is certainly visible before its deadline second, certainly gone after it, either during it (deadline windows of KsCore.tla)",
                                        "deadlines of 1-3 s; TTL-setting commands are never issued in the last 200 ms of a second; no statement about clock jumps",
